@@ -2,7 +2,8 @@
    ExtrOcamlBasic only: bool/option/list/prod/unit/sumbool map to OCaml's; Z,
    positive, nat, Q stay the extracted Coq datatypes.  No Extract Constant. *)
 From Coq Require Import Extraction ExtrOcamlBasic ZArith List.
-Require Import CV.RowLeg CV.RowLegCert CV.RowLegChecked.
+Require Import CV.RowLeg CV.RowLegCert CV.RowLegChecked CV.Orient CV.FreeSpace.
 Extraction Language OCaml.
 Extraction "model.ml"
-  RowLeg.run RowLegChecked.checked_run RowLegCert.cert_ok RowLegChecked.mk_cells.
+  RowLeg.run RowLegChecked.checked_run RowLegCert.cert_ok RowLegChecked.mk_cells
+  FreeSpace.freespace_rows FreeSpace.compute_rows_circuit.
